@@ -9,6 +9,7 @@ use crate::optok::tok_of;
 use crate::rng::Rng;
 use std::collections::BTreeMap;
 use wasmparser::Operator;
+use wirm::module_builder::AddLocal;
 use wirm::ir::function::FunctionBuilder;
 use wirm::ir::id::{ExportsID, FunctionID, GlobalID};
 use wirm::ir::module::side_effects::{InjectType, Injection};
@@ -35,6 +36,16 @@ fn dt(s: &str) -> DataType {
 fn dts(xs: &[&str]) -> Vec<DataType> {
     xs.iter().map(|s| dt(s)).collect()
 }
+/// the locals a function built by this family declares
+fn built_locals(uid: u32) -> Vec<DataType> {
+    match uid % 4 {
+        0 => vec![],
+        1 => vec![DataType::I32, DataType::I32, DataType::I64],
+        2 => vec![DataType::F32, DataType::I64, DataType::I64, DataType::I64],
+        _ => vec![DataType::I64],
+    }
+}
+
 fn dt_name(d: &DataType) -> String {
     format!("{d:?}").to_lowercase()
 }
@@ -571,6 +582,10 @@ fn apply<'a>(m: &mut Module<'a>, acts: &[Act], hs: &mut [Handle]) -> Vec<String>
             Act::Func { uid, sig, tag, refs } => {
                 let (p, r) = SIGS[*sig];
                 let mut fb = FunctionBuilder::new(&dts(p), &dts(r));
+                // locals of its own (a function of its uid): none, one run, or several runs of different types - the record lists them
+                for l in built_locals(*uid) {
+                    fb.add_local(l);
+                }
                 fb.inject(Operator::I32Const { value: FMARK + *uid as i32 });
                 fb.inject(Operator::Drop);
                 for o in ref_ops(refs, hs) {
@@ -769,7 +784,17 @@ fn canon(fx: &std::collections::HashMap<InjectType, Vec<Injection>>) -> Vec<Rec>
                     Rec {
                         kind,
                         tag: tag.data().clone(),
-                        text: format!("{id}:{}:{}:{}:{}", fname.clone().unwrap_or("-".into()), sig_str(&sig.0, &sig.1), locals.len(), toks(&ops)),
+                        // the model does not carry the locals of a built function: the record's list is judged here, against what the
+                        // family declared for the function (identified by the marker constant its body starts with), and shown as `0` when right
+                        text: format!("{id}:{}:{}:{}:{}", fname.clone().unwrap_or("-".into()), sig_str(&sig.0, &sig.1), {
+                            let uid = match ops.first() {
+                                Some(Operator::I32Const { value }) if *value >= FMARK => Some((*value - FMARK) as u32),
+                                _ => None,
+                            };
+                            let want: Option<Vec<String>> = uid.map(|u| built_locals(u).iter().map(dt_name).collect());
+                            let got: Vec<String> = locals.iter().map(dt_name).collect();
+                            if want.as_ref() == Some(&got) { "0".to_string() } else { format!("LOCALS!{}", got.join("+")) }
+                        }, toks(&ops)),
                         key: ops.first().map(tok_of).unwrap_or_default(),
                         body: None,
                         fid: *id,
@@ -1018,6 +1043,9 @@ fn judge(ctx: &mut Ctx, case: u64, base: &Base, acts: &[Act], hs: &[Handle], out
         }
     };
     let mut fails: Vec<(String, String)> = vec![];
+    for r in recs.iter().filter(|r| r.kind == "func" && r.text.contains(":LOCALS!")) {
+        fails.push(("func-record-wrong-locals".to_string(), r.text.clone()));
+    }
     // ---- expected records of the non-probe kinds: (kind, key, tag)
     let mut want: Vec<(&str, String, Vec<u8>)> = vec![];
     let mut sigs: Vec<usize> = base.types.clone();
